@@ -1,5 +1,5 @@
 import sys, z3, os
-sys.path.insert(0, "/repo"); sys.path.insert(0, os.path.dirname(__file__))
+sys.path.insert(0, __import__("os").environ.get("VERIF_REPO", "/repo")); sys.path.insert(0, os.path.dirname(__file__))
 import logging; logging.disable(logging.CRITICAL)
 import symx_prototype as symx
 from symx_prototype import SInt
